@@ -66,12 +66,34 @@ fn execute(ctx: &Ctx, c: &Cfg) -> Run {
   let mut reference = None;
   let sub: Vec<String> = match (c.scenario, c.fail) {
     ("create-stdout", false) => {
-      // reference: the file written without `-o -`
-      let r = Cmd::new(&ctx.imdl, &["torrent", "create", "--input", "data", "--output", "ref.torrent", "--no-creation-date", "--piece-length", "16KiB"]).cwd(&sb.root).run();
-      if r.ok() {
-        reference = std::fs::read(sb.path("ref.torrent")).ok();
+      // A payload of a few KiB whose last newline byte is followed by more than a kilobyte: 72 pieces of 64 bytes chosen so
+      // that no piece hash contains 0x0a, and a comment with a line break (the comment precedes `info` in the file).
+      let mut big = Vec::new();
+      for i in 0u32..72 {
+        let mut ctr = 0u32;
+        loop {
+          let mut block = vec![0u8; 64];
+          block[..4].copy_from_slice(&i.to_be_bytes());
+          block[4..8].copy_from_slice(&ctr.to_be_bytes());
+          if !sha1::Sha1::from(&block).digest().bytes().contains(&0x0a) {
+            big.extend_from_slice(&block);
+            break;
+          }
+          ctr += 1;
+        }
       }
-      vec!["torrent", "create", "--input", "data", "--output", "-", "--no-creation-date", "--piece-length", "16KiB"].into_iter().map(String::from).collect()
+      sb.write("bigdata", &big);
+      let common = ["--no-creation-date", "--piece-length", "64", "--allow", "small-piece-length", "--comment", "first line\nsecond line"];
+      // reference: the file written without `-o -`
+      let mut ra: Vec<&str> = vec!["torrent", "create", "--input", "bigdata", "--output", "ref.torrent"];
+      ra.extend_from_slice(&common);
+      let r = Cmd::new(&ctx.imdl, &ra).cwd(&sb.root).run();
+      if r.ok() {
+        reference = std::fs::read(sb.path("ref.torrent")).ok().filter(|b| b.len() > 1500 && b.iter().rposition(|x| *x == 0x0a).map(|i| b.len() - i > 1100).unwrap_or(false));
+      }
+      let mut a: Vec<&str> = vec!["torrent", "create", "--input", "bigdata", "--output", "-"];
+      a.extend_from_slice(&common);
+      a.into_iter().map(String::from).collect()
     }
     ("create-stdout", true) => vec!["torrent", "create", "--input", "missing", "--output", "-"].into_iter().map(String::from).collect(),
     ("create-file", false) => {
@@ -111,6 +133,10 @@ fn execute(ctx: &Ctx, c: &Cfg) -> Run {
     ("completions", false) => vec!["completions", "--shell", "bash"].into_iter().map(String::from).collect(),
     ("completions", true) => vec!["completions"].into_iter().map(String::from).collect(),
     ("usage", _) => vec!["torrent", "create", "--no-such-flag"].into_iter().map(String::from).collect(),
+    ("usage-no-subcommand", _) => vec![],
+    ("usage-torrent-alone", _) => vec!["torrent".to_string()],
+    ("usage-missing-value", _) => vec!["torrent", "create", "--input"].into_iter().map(String::from).collect(),
+    ("usage-bad-value", _) => vec!["torrent", "create", "--input", "data", "--piece-length", "1xib"].into_iter().map(String::from).collect(),
     _ => vec!["--version".to_string()],
   };
   let mut args = global;
@@ -130,15 +156,15 @@ fn execute(ctx: &Ctx, c: &Cfg) -> Run {
 
 pub fn run(ctx: &Ctx) -> Report {
   let mut report = Report::new(
-    "complete enumeration with real pipes: {create -o -, create to file, link, show --json, show, verify, announce (loopback tracker), piece-length, completions, usage error, --version} x success/failure x --quiet x --color {auto,always,never} \
+    "complete enumeration with real pipes: {create -o -, create to file, link, show --json, show, verify, announce (loopback tracker), piece-length, completions, five kinds of usage error (unknown flag, no subcommand, `torrent` alone, missing value, bad value), --version} x success/failure x --quiet x --color {auto,always,never} \
      x --terminal x {NO_COLOR, TERM=dumb, TERM=xterm}; stdout compared byte-for-byte with the expected payload, stderr emptiness, escape sequences, exit status; non-trivial = any flag set or failure; distinct by configuration",
   );
   report.exhaustive = ctx.replay.is_none();
   report.correspondences.push("C18.streams: stderr activity / stdout styling of the real binary = Imdlv.Streams.{outStream,errStream}; exit status = exitCode".into());
   let mut cfgs = Vec::new();
-  for scenario in ["create-stdout", "create-file", "link", "show-json", "show", "verify", "announce", "piece-length", "completions", "usage", "version"] {
+  for scenario in ["create-stdout", "create-file", "link", "show-json", "show", "verify", "announce", "piece-length", "completions", "usage", "usage-no-subcommand", "usage-torrent-alone", "usage-missing-value", "usage-bad-value", "version"] {
     for fail in [false, true] {
-      if fail && matches!(scenario, "piece-length" | "usage" | "version") {
+      if fail && (matches!(scenario, "piece-length" | "version") || scenario.starts_with("usage")) {
         continue;
       }
       for quiet in [false, true] {
@@ -169,7 +195,7 @@ pub fn run(ctx: &Ctx) -> Report {
     report.case(if nontrivial { Some(fnv_str(&case.to_string())) } else { None });
     report.hit(&format!("scenario:{}", c.scenario));
     let o = &r.out;
-    let success = !c.fail && c.scenario != "usage";
+    let success = !c.fail && !c.scenario.starts_with("usage");
     let mut pf: Option<String> = None;
     // exit status
     let want_exit = if success { 0 } else { 1 };
@@ -211,14 +237,15 @@ pub fn run(ctx: &Ctx) -> Report {
         pf = pf.or(Some(format!("--quiet but standard error is not empty on success: {:?}", o.stderr_s())));
       }
     } else {
-      if !o.stdout.is_empty() && c.scenario != "usage" {
+      if !o.stdout.is_empty() && !c.scenario.starts_with("usage") {
         pf = pf.or(Some(format!("a failed run wrote to standard output: {:?}", String::from_utf8_lossy(&o.stdout[..o.stdout.len().min(80)]))));
       }
       if !c.quiet && !strip_ansi(&o.stderr).windows(5).any(|w| w == b"error") && !o.stderr_s().contains("USAGE") {
         pf = pf.or(Some("failure without an `error:` diagnostic on standard error".into()));
       }
     }
-    if c.color != "always" && o.stdout.contains(&0x1b) {
+    // (a torrent is binary: its piece hashes may contain any byte; that payload is compared with the reference above)
+    if c.color != "always" && o.stdout.contains(&0x1b) && c.scenario != "create-stdout" {
       pf = pf.or(Some("escape sequence on a non-terminal standard output without --color always".into()));
     }
     if report.samples.len() < 5 && nontrivial && c.scenario == "create-stdout" {
@@ -239,18 +266,18 @@ pub fn run(ctx: &Ctx) -> Report {
     let mut md = None;
     // commands that write chatter or a diagnostic to stderr
     // usage errors are printed by the status wrapper before --quiet / --color are applied
-    let is_usage = c.scenario == "usage" || (c.scenario == "completions" && c.fail);
+    let is_usage = c.scenario.starts_with("usage") || (c.scenario == "completions" && c.fail);
     let writes_err = (matches!(c.scenario, "create-stdout" | "create-file" | "verify") || !success) && !is_usage;
-    if writes_err && c.scenario != "usage" && (o.stderr.is_empty() == err_active) {
+    if writes_err && !c.scenario.starts_with("usage") && (o.stderr.is_empty() == err_active) {
       md = Some(format!("stderr {} bytes, model err.active={err_active}", o.stderr.len()));
     }
-    if writes_err && c.scenario != "usage" && err_active && (o.stderr.contains(&0x1b) != err_style) {
+    if writes_err && !c.scenario.starts_with("usage") && err_active && (o.stderr.contains(&0x1b) != err_style) {
       md = Some(format!("stderr escapes={}, model err.style={err_style}", o.stderr.contains(&0x1b)));
     }
     if c.scenario == "show" && success && c.terminal && (o.stdout.contains(&0x1b) != out_style) {
       md = Some(format!("`show --terminal` stdout escapes={}, model out.style={out_style}", o.stdout.contains(&0x1b)));
     }
-    let exit_ans = model.ask(&format!("C18 exit {}", if c.scenario == "usage" || (c.scenario == "completions" && c.fail) { "usage" } else if success { if c.scenario == "version" { "help" } else { "ok" } } else { "failed" }));
+    let exit_ans = model.ask(&format!("C18 exit {}", if c.scenario.starts_with("usage") || (c.scenario == "completions" && c.fail) { "usage" } else if success { if c.scenario == "version" { "help" } else { "ok" } } else { "failed" }));
     if exit_ans != format!("ok {}", o.code.unwrap_or(-1)) {
       md = Some(format!("exit {:?}, model `{exit_ans}`", o.code));
     }
